@@ -32,13 +32,19 @@ theorem ceil_form (x y : Int) (hy : 0 < y) : (y - 1 - x) / y = -(x / y) := by
   · have := Int.emod_lt_of_pos x hy; omega
   · have := Int.emod_nonneg x hy0; have := Int.emod_lt_of_pos x hy; omega
 
+/-- `(-(x+1)) / y = -(x / y) - 1` for y > 0 -/
+theorem negsucc_form (x y : Int) (hy : 0 < y) : (-(x + 1)) / y = -(x / y) - 1 := by
+  have hy0 : y ≠ 0 := by omega
+  have e : -(x + 1) = (y - 1 - x) + (-1) * y := by ring
+  rw [e, Int.add_mul_ediv_right _ _ hy0, ceil_form x y hy]; ring
+
 theorem divp_eq_ediv (x y : Int) (hy : y ≠ 0) : divp x y = x / y := by
   unfold divp
   split_ifs with hx hy' hy'
   · rw [Int.tdiv_eq_ediv_of_nonneg hx]
   · rw [Int.tdiv_eq_ediv_of_nonneg hx, Int.ediv_neg, Int.neg_neg]
-  · rw [Int.tdiv_eq_ediv_of_nonneg (by omega), ceil_form x y (by omega), Int.neg_neg]
-  · rw [Int.tdiv_eq_ediv_of_nonneg (by omega), ceil_form x (-y) (by omega), Int.ediv_neg, Int.neg_neg]
+  · rw [Int.tdiv_eq_ediv_of_nonneg (by omega), negsucc_form x y (by omega)]; ring
+  · rw [Int.tdiv_eq_ediv_of_nonneg (by omega), negsucc_form x (-y) (by omega), Int.ediv_neg]; ring
 
 theorem modp_eq_emod (x y : Int) (hy : y ≠ 0) : modp x y = x % y := by
   unfold modp; rw [divp_eq_ediv x y hy, Int.emod_def]
@@ -102,21 +108,50 @@ theorem mods_noOverflow_iff (x y : Int) (hx : inInt32 x = true) (hy : inInt32 y 
   · have := tmod_bounds (-x) (-y) (by omega)
     simp only [List.all_cons, List.all_nil, Bool.and_true, Bool.and_eq_true, inInt32_iff, Bool.true_and]; omega
 
+/-- exactly which inputs make an intermediate of the repaired `divp` overflow: `-y` for
+y = INT_MIN, and the final `1 + q` for (INT_MIN, -1), whose quotient 2^31 is not an int anyway -/
 theorem divp_noOverflow_iff (x y : Int) (hx : inInt32 x = true) (hy : inInt32 y = true) :
     noOverflow (divpSteps x y) = true ↔
-      y ≠ -2147483648 ∧ (x < 0 → (if y ≥ 0 then y else -y) - x ≤ 2147483648) := by
+      y ≠ -2147483648 ∧ ¬ (x = -2147483648 ∧ y = -1) := by
   rw [inInt32_iff] at hx hy
   unfold noOverflow divpSteps
   split_ifs with h1 h2 h2
   · have := tdiv_bounds x y h1 h2
-    simp only [List.all_cons, List.all_nil, Bool.and_true, Bool.and_eq_true, inInt32_iff, Bool.true_and]; omega
+    simp only [List.all_cons, List.all_nil, Bool.and_true, Bool.and_eq_true, inInt32_iff]; omega
   · have := tdiv_bounds x (-y) h1 (by omega)
-    simp only [List.all_cons, List.all_nil, Bool.and_true, Bool.and_eq_true, inInt32_iff, Bool.true_and]; omega
-  · have := tdiv_bounds (y - 1 - x) y (by omega) h2
-    simp only [List.all_cons, List.all_nil, Bool.and_true, Bool.and_eq_true, inInt32_iff, Bool.true_and]; omega
-  · have := tdiv_bounds (-y - 1 - x) (-y) (by omega) (by omega)
-    simp only [List.all_cons, List.all_nil, Bool.and_true, Bool.and_eq_true, inInt32_iff, Bool.true_and]; omega
+    simp only [List.all_cons, List.all_nil, Bool.and_true, Bool.and_eq_true, inInt32_iff]; omega
+  · have := tdiv_bounds (-(x + 1)) y (by omega) h2
+    simp only [List.all_cons, List.all_nil, Bool.and_true, Bool.and_eq_true, inInt32_iff]; omega
+  · have := tdiv_bounds (-(x + 1)) (-y) (by omega) (by omega)
+    have h3 : y = -1 → (-(x + 1)).tdiv (-y) = -(x + 1) := by
+      intro h; rw [h]; simp
+    have h4 : y ≤ -2 → (-(x + 1)).tdiv (-y) ≤ 1073741823 := by
+      intro h
+      have h5 : (-(x + 1)).tdiv (-y) * 2 ≤ (-(x + 1)).tdiv (-y) * (-y) :=
+        Int.mul_le_mul_of_nonneg_left (by omega) this.1
+      have h6 := Int.mul_tdiv_add_tmod (-(x + 1)) (-y)
+      have h7 := Int.tmod_nonneg (-y) (show 0 ≤ -(x + 1) by omega)
+      have h8 : (-(x + 1)).tdiv (-y) * (-y) = (-y) * (-(x + 1)).tdiv (-y) := Int.mul_comm _ _
+      omega
+    simp only [List.all_cons, List.all_nil, Bool.and_true, Bool.and_eq_true, inInt32_iff]
+    constructor
+    · intro h; omega
+    · intro h
+      rcases (show y = -1 ∨ y ≤ -2 by omega) with hy1 | hy2
+      · have := h3 hy1; omega
+      · have := h4 hy2; omega
 
+/-- the negations alone: only `-y` can overflow -/
+theorem divpNegations_iff (x y : Int) (hx : inInt32 x = true) (hy : inInt32 y = true) :
+    noOverflow (divpNegations x y) = true ↔ y ≠ -2147483648 := by
+  rw [inInt32_iff] at hx hy
+  unfold noOverflow divpNegations
+  split_ifs with h1 h2 h2
+  · simp only [List.all_nil, true_iff]; omega
+  · have := tdiv_bounds x (-y) h1 (by omega)
+    simp only [List.all_cons, List.all_nil, Bool.and_true, Bool.and_eq_true, inInt32_iff]; omega
+  · simp only [List.all_cons, List.all_nil, Bool.and_true, Bool.and_eq_true, inInt32_iff]; omega
+  · simp only [List.all_cons, List.all_nil, Bool.and_true, Bool.and_eq_true, inInt32_iff]; omega
 
 theorem wrap32_id (i : Int) (h : inInt32 i = true) : wrap32 i = i := by
   rw [inInt32_iff] at h; unfold wrap32; omega
@@ -151,19 +186,28 @@ theorem divp32_eq (x y : Int) (hy0 : y ≠ 0) (hx : inInt32 x = true) (hy : inIn
   · rw [div32_some _ _ hy0 (by omega)]
   · rw [wrap32_id (-y) (by rw [inInt32_iff]; omega), div32_some _ _ (by omega) (by omega), Option.map_some,
       wrap32_id _ (by rw [inInt32_iff]; omega)]
-  · rw [wrap32_id (y - 1) (by rw [inInt32_iff]; omega), wrap32_id (y - 1 - x) (by rw [inInt32_iff]; omega),
+  · rw [wrap32_id (x + 1) (by rw [inInt32_iff]; omega), wrap32_id (-(x + 1)) (by rw [inInt32_iff]; omega),
       div32_some _ _ (by omega) (by omega), Option.map_some, wrap32_id _ (by rw [inInt32_iff]; omega)]
-  · rw [wrap32_id (-y) (by rw [inInt32_iff]; omega), wrap32_id (-y - 1) (by rw [inInt32_iff]; omega),
-      wrap32_id (-y - 1 - x) (by rw [inInt32_iff]; omega), div32_some _ _ (by omega) (by omega)]
+  · rw [wrap32_id (x + 1) (by rw [inInt32_iff]; omega), wrap32_id (-(x + 1)) (by rw [inInt32_iff]; omega),
+      wrap32_id (-y) (by rw [inInt32_iff]; omega),
+      div32_some _ _ (by omega) (by omega), Option.map_some, wrap32_id _ (by rw [inInt32_iff]; omega)]
 
-theorem modp32_eq (x y : Int) (hy0 : y ≠ 0) (hx : inInt32 x = true) (hy : inInt32 y = true)
-    (h : noOverflow (modpSteps x y) = true) : modp32 x y = some (modp x y) := by
-  unfold noOverflow modpSteps at h
-  rw [List.all_append, Bool.and_eq_true] at h
-  obtain ⟨h1, h2⟩ := h
-  simp only [List.all_cons, List.all_nil, Bool.and_true, Bool.and_eq_true] at h2
-  unfold modp32 modp
-  rw [divp32_eq x y hy0 hx hy h1, Option.map_some, wrap32_id _ h2.1, wrap32_id _ h2.2]
+/-- `modp` through wrapped arithmetic: right whenever `divp` is, even if `y * divp` wraps -/
+theorem modp32_eq_wrap (x y : Int) (hy0 : y ≠ 0) (hx : inInt32 x = true) (hy : inInt32 y = true)
+    (h : noOverflow (divpSteps x y) = true) : modp32 x y = some (x % y) := by
+  unfold modp32
+  rw [divp32_eq x y hy0 hx hy h, Option.map_some, divp_eq_ediv x y hy0]
+  have h1 : x - y * (x / y) = x % y := by rw [Int.emod_def]
+  have h2 := Int.emod_nonneg x hy0
+  have h3 := Int.emod_lt_abs x hy0
+  rw [inInt32_iff] at hx hy
+  have h4 : |y| ≤ 2147483648 := by rw [abs_le]; omega
+  generalize y * (x / y) = P at h1
+  unfold wrap32
+  congr 1
+  omega
+
+
 
 /-! ### floor / ceil / trunc -/
 section
